@@ -184,6 +184,57 @@ theorem holds (c : Cfg) (wf : wfCfg c) (es : List Ev) : spec c (observe c es) = 
         cases this
       · simp [hc]
 
+/-! ### the last clause as written (no proviso): refuted — open finding F11 -/
+
+/-- the statement read literally, for every well-formed configuration and every history -/
+def holds_full : Prop := ∀ (c : Cfg), wfCfg c → ∀ es : List Ev, specFull c (observe c es) = true
+
+/-- **holds_full_false** (finding F11): the literal statement is FALSE of the set-up machine (and, by the
+correspondence runs, of `EcoMAX.async_setup`): ecoMAX parameters answered 125 ms after the sensor data, the product
+request never answered — the handler of the answer waits for product information for ever, the answered kind is
+listed as failed and its data is not available when set-up finishes. -/
+theorem holds_full_false : ¬ holds_full := by
+  intro h
+  have := h (ecomaxCfg true) (ecomax_wf true) [.sensors, .wait 125, .answer 2, .timer, .timer, .timer]
+  revert this
+  decide
+
+/-- the same run, clause by clause: kind 2 is answered (at 125 ms, before the deadline), yet it is listed as failed,
+was requested 3 times, and its data is not available -/
+example : let o := observe (ecomaxCfg true) [.sensors, .wait 125, .answer 2, .timer, .timer, .timer]
+    answered (ecomaxCfg true) o 2 = true ∧ o.errors.contains 2 = true ∧ o.tx.getD 2 0 = 3 ∧ o.present.getD 2 true = false := by
+  decide
+
+/-- **full_fails_exactly_when**: the literal statement fails ONLY on the input class of the finding — whenever
+`specFull` rejects the observation of a history, product information was not among the answers and some kind whose
+handler waits for product information was answered (`f11Input`); everywhere else the literal statement holds. -/
+theorem full_fails_exactly_when (c : Cfg) (wf : wfCfg c) (es : List Ev) (h : specFull c (observe c es) = false) :
+    f11Input c (observe c es) = true := by
+  have hs := holds c wf es
+  unfold specFull at h
+  rw [hs, Bool.true_and] at h
+  cases hl : (observe c es).loadedAt with
+  | none => rw [hl] at h; simp at h
+  | some t =>
+    rw [hl] at h
+    simp only [literalData, List.all_eq_false] at h
+    obtain ⟨k, hk, hbad⟩ := h
+    -- k is answered and its data is not present
+    have hans : answered c (observe c es) k = true := by
+      cases hq : answered c (observe c es) k <;> simp_all
+    have hpres : (observe c es).present.getD k false = false := by
+      cases hq : (observe c es).present.getD k false <;> simp_all
+    -- the proviso clause of `spec` for k
+    unfold spec at hs
+    rw [hl] at hs
+    simp only [Bool.and_eq_true, List.all_eq_true] at hs
+    have h4 := (hs.2 k hk).2
+    simp only [hans, hpres, Bool.true_and, Bool.or_false,
+      Bool.or_eq_false_iff, Bool.not_eq_eq_eq_not, Bool.not_true, Bool.not_false] at h4
+    simp only [f11Input, Bool.and_eq_true, Bool.not_eq_true', List.any_eq_true]
+    cases hd : c.dep k <;> cases hp : answered c (observe c es) c.product <;> simp_all
+    exact ⟨k, hk, hd, hans⟩
+
 /-- `spec` is not vacuous: it rejects an unanswered kind that is not listed, a late 'loaded', a
 failed kind requested only once, and a missing 'loaded' -/
 example : spec (ecomaxCfg true) ⟨0, [some 100, none, some 200, some 200, some 200, some 200, some 200, some 200],
